@@ -14,7 +14,7 @@ for p in sorted(glob.glob(os.path.join(V, "specs", "C*.json"))):
         "replay_cmd_template": "./check %s --replay {path}" % pid,
         "engine": "gosym",
         "level_claimed": {"category": s.get("level", "model_checking"),
-                          "text": s.get("level_text", "bounded symbolic model checking of the real functions (go/ssa of /repo's working tree -> SMT); every registered obligation is unsat for all values within the stated bounds, sat results are replayed natively before being reported"),
+                          "text": s.get("level_text", "bounded symbolic model checking of the real functions (go/ssa of /repo's working tree -> SMT); every registered obligation is unsat for all values within the stated bounds, sat results are replayed natively before being reported where the harness has no engine-level model (otherwise the counterexample is the solver model, stated in the evidence)"),
                           "design_ref": "DESIGN.md §6 " + pid},
         "level_note": s.get("level_note", "trusted: the SSA->SMT translation (validated per run on concrete vectors where registered), the harness models listed in evidence.assumptions, z3/cvc5"),
         "technique": s.get("technique", "solver-based bounded symbolic execution of go/ssa (z3/cvc5), native replay of counterexamples"),
